@@ -178,7 +178,7 @@ class TLSNet:
 
     def _party(self, sock, conn):
         rec, plan = conn.rec, self.plan
-        sock.settimeout(plan.get("io_timeout", 5.0))
+        sock.settimeout(plan.get("io_timeout", 3.0))
         layer = sock
         try:
             if plan.get("proxy") == "https":
